@@ -120,6 +120,15 @@ def exc_bucket(exc: BaseException) -> str:
     return f"exc:{type(exc).__name__}@{where}"
 
 
+def weighted(*pairs):
+    """st.one_of with weights: weighted((3, a), (1, b)). (Repeating a strategy object inside st.one_of does NOT weight it -
+    Hypothesis removes duplicates.)"""
+    from hypothesis import strategies as st
+
+    idx = [i for i, (w, _) in enumerate(pairs) for _ in range(w)]
+    return st.sampled_from(idx).flatmap(lambda i: pairs[i][1])
+
+
 def call_guard(fn):
     """Run fn(); returns (result, None) or (None, (bucket, message)). Harness-private
     BaseExceptions (HarnessTimeout, budget) pass through."""
